@@ -13,4 +13,5 @@ for b in ent dec enc bcl cmpa cmpb scha schb tool conc; do
     git commit -qm "merge $b"
   fi
 done
+python3 tools/rebuild_known.py
 python3 pylib/mkmanifest.py
